@@ -10,7 +10,11 @@ Contract (read from orbax-checkpoint 0.12.4 and validated against the real libra
   write finishes, keeps only the `max_to_keep` largest steps; with async checkpointing the save is
   pending until the next save / wait_until_finished;
 * `latest_step()`, `all_steps()` see committed steps (observers first drain the pending save: the
-  properties observe the directory after pending writes have finished);
+  properties observe the directory after pending writes have finished); a manager lists the directory when it is
+  created and afterwards only learns about its own saves (the real manager caches the step list), so a manager object
+  kept alive does not see steps written later by another manager;
+* `is_saving_in_progress()` is true while an asynchronous save is pending (the adversarial schedule: the background
+  write takes until the next synchronisation point);
 * `restore(step, args=StandardRestore(template))` returns the snapshot with the template's tree structure.
 """
 from __future__ import annotations
@@ -70,12 +74,23 @@ class ModelManager:
         self.options = options or ModelOptions()
         Store.dirs.setdefault(self.directory, {"committed": {}, "pending": None, "accepted": []})
         Store.log.append(("manager", self.directory, self.options.max_to_keep, self.options.enable_async_checkpointing))
+        self._drain()
+        self.known = set(self.st["committed"])      # directory listing at creation time
 
     @property
     def st(self):
         return Store.dirs[self.directory]
 
+    def is_saving_in_progress(self):
+        return self.st["pending"] is not None
+
+    def _visible(self):
+        return sorted(k for k in self.st["committed"] if k in self.known)
+
     def wait_until_finished(self):
+        self._drain()
+
+    def _drain(self):
         st = self.st
         if st["pending"] is not None:
             step, snap, keep_n = st["pending"]
@@ -89,21 +104,30 @@ class ModelManager:
 
     def latest_step(self):
         self.wait_until_finished()
-        return max(self.st["committed"]) if self.st["committed"] else None
+        v = self._visible()
+        return max(v) if v else None
 
-    def all_steps(self):
+    def all_steps(self, read=False):
         self.wait_until_finished()
-        return sorted(self.st["committed"])
+        if read:
+            self.known |= set(self.st["committed"])
+        return self._visible()
+
+    def reload(self):
+        self.wait_until_finished()
+        self.known = set(self.st["committed"])
 
     def save(self, step, args=None, **kw):
         self.wait_until_finished()
-        last = max(self.st["committed"]) if self.st["committed"] else None
+        v = self._visible()
+        last = max(v) if v else None
         if last is not None and last >= step:
             Store.log.append(("skip", self.directory, step))
             return False
         snap = jax.tree_util.tree_map(_snapshot_leaf, args.item, is_leaf=_is_leaf)
         self.st["pending"] = (step, snap, self.options.max_to_keep)
         self.st["accepted"].append(step)
+        self.known.add(step)
         Store.log.append(("save", self.directory, step))
         if not self.options.enable_async_checkpointing:
             self.wait_until_finished()
